@@ -1037,19 +1037,58 @@ def mapSelf (pick : Pick) (text : List Byte) : MapOutcome :=
 (symbol_map.rs:71-75) -/
 def storedModuleLine (ix : Index) : List Byte := ix.moduleInfo.takeWhile (· ≠ 10)
 
-/-- `matches_sym_file` (symbol_map.rs:76-79, fix 3f61c23c): the stored MODULE line is not empty and the
-`.sym` file starts with exactly these bytes (`read_bytes_at(0, len)` fails when the file is shorter) -/
-def storedMatches (text : List Byte) (ix : Index) : Bool :=
+/-- the `DebugId` value `DebugId::from_breakpad` builds from an accepted hex token (debugid-0.8.0
+lib.rs:171-197, 249-289; `DebugId` derives `PartialEq` over `bytes`, `appendix`, `typ`): (PDB-2.0 form?,
+the 8-digit timestamp resp. the 32-digit UUID, the appendix / age as a number). Two accepted tokens denote
+the same `DebugId` iff these triples are equal (letter case and leading zeros of the appendix do not
+matter; a 9..16-digit id never equals a 33..40-digit one). -/
+def debugIdValue (id : List Byte) : Bool × Nat × Nat :=
+  let short := decide (9 ≤ id.length ∧ id.length ≤ 16)
+  let k := if short then 8 else 32
+  (short, hexValue (id.take k), hexValue (id.drop k))
+
+/-- `debug_id_of_module_line` (index.rs:906-910, fix d2664d76): the id component of `module_line`, `None`
+when the line is not a MODULE record (`cut` only turns `Error` into `Failure`; both are `Err`) -/
+def debugIdOfModuleLine (line : List Byte) : Option (Bool × Nat × Nat) :=
+  (moduleLine line).map fun m => debugIdValue m.id
+
+/-- `index.debug_id` of a parsed index: the id of the LAST line of the module-info block that parses as a
+MODULE record (index.rs:57-95, `deriveModule`) -/
+def indexDebugId (ix : Index) : Option (Bool × Nat × Nat) :=
+  (deriveModule ix.moduleInfo).map fun m => debugIdValue m.id
+
+/-- `debug_id_of_module_line(module_line) == Some(index.debug_id)` (symbol_map.rs:82, fix d2664d76) -/
+def storedIdAgrees (ix : Index) : Bool :=
+  match debugIdOfModuleLine (storedModuleLine ix), indexDebugId ix with
+  | some a, some b => a == b
+  | _, _ => false
+
+/-- the test of fix 3f61c23c alone: the stored MODULE line is not empty and the `.sym` file starts with
+exactly these bytes (`read_bytes_at(0, len)` fails when the file is shorter) -/
+def storedMatchesFirstLine (text : List Byte) (ix : Index) : Bool :=
   let m := storedModuleLine ix
   !m.isEmpty && text.take m.length == m
 
-/-- the map that is offered a stored index (`make_index_storage`, symbol_map.rs:62-107): the stored index
-is used when it parses AND its MODULE line is the beginning of the `.sym` file; otherwise the file is
-indexed as if nothing had been offered -/
+/-- `matches_sym_file` (symbol_map.rs:76-82, fixes 3f61c23c + d2664d76): additionally the index must
+report the debug id which that first line states -/
+def storedMatches (text : List Byte) (ix : Index) : Bool :=
+  storedMatchesFirstLine text ix && storedIdAgrees ix
+
+/-- the map that is offered a stored index (`make_index_storage`, symbol_map.rs:62-110): the stored index
+is used when it parses, its MODULE line is the beginning of the `.sym` file AND the debug id it reports is
+the one that line states; otherwise the file is indexed as if nothing had been offered -/
 def mapStored (pick : Pick) (text : List Byte) (stored : Option (List Byte)) : MapOutcome :=
   if (tag tMODULE_ text).isNone then .notBreakpad
   else match stored.bind parseSymindex with
     | some ix => if storedMatches text ix then .ok ix else mapSelf pick text
+    | none => mapSelf pick text
+
+/-- fix 3f61c23c without d2664d76: only the first line of the stored module info was compared, although
+`parse_symindex_file` takes the debug id from the LAST MODULE line of that block -/
+def mapStoredFirstLineOnly (pick : Pick) (text : List Byte) (stored : Option (List Byte)) : MapOutcome :=
+  if (tag tMODULE_ text).isNone then .notBreakpad
+  else match stored.bind parseSymindex with
+    | some ix => if storedMatchesFirstLine text ix then .ok ix else mapSelf pick text
     | none => mapSelf pick text
 
 /-- before fix 3f61c23c: any stored index that parses was used, whatever file it had been built from -/
